@@ -30,7 +30,7 @@ class Q:
     """one solver query"""
     def __init__(self, name, unit, harness, entry, defs=None, unwind=None, unwindset=(), paths=False,
                  checks='std', extra=(), expect='pass', match=None, kind='main', timeout=600, mem_gb=6,
-                 optional=False, bounds=None, known=None, replay=True, solver='cadical', what=None, group=None, inline_witness=False, witness='all', unwind_fn=None):
+                 optional=False, bounds=None, known=None, replay=True, solver='cadical', what=None, group=None, inline_witness=False, witness='all', unwind_fn=None, ignore=None):
         self.name = name; self.units = [unit] if isinstance(unit, str) else list(unit)
         self.harness = harness; self.entry = entry; self.defs = dict(defs or {})
         self.unwind = unwind; self.unwindset = list(unwindset); self.paths = paths; self.checks = checks
@@ -39,7 +39,7 @@ class Q:
         self.bounds = bounds or {}; self.known = known; self.replay = replay; self.solver = solver
         self.what = what; self.group = group or name; self.inline_witness = inline_witness
         if inline_witness: self.defs['VP_WITNESS_ON'] = 1
-        self.witness = witness; self.unwind_fn = unwind_fn or []
+        self.witness = witness; self.unwind_fn = unwind_fn or []; self.ignore = ignore
         self.res = None
 
 class Unit:
@@ -235,14 +235,15 @@ class Runner:
         m = re.findall(r'Runtime decision procedure: ([0-9.e+-]+)s', txt)
         if m: res['decision_s'] = round(sum(float(x) for x in m), 2)
         failed = re.findall(r'^\[([^\]]+)\] (?:line (\d+) )?(.*): FAILURE$', txt, re.M)
-        res['failed'] = [{'id': f[0], 'line': f[1], 'desc': f[2]} for f in failed]
+        res['failed'] = [{'id': f[0], 'line': f[1], 'desc': f[2]} for f in failed if not (q.ignore and re.search(q.ignore, f[0]))]
+        res['ignored_failures'] = sorted(set(f[0] for f in failed if q.ignore and re.search(q.ignore, f[0])))
         res['witness_unreached'] = sorted(set(re.findall(r'^\[[^\]]+\] (?:line \d+ )?(WITNESS .*): SUCCESS$', txt, re.M)))
         res['witness_reached'] = len(set(d for (_, _, d) in failed if d.startswith('WITNESS')))
         m = re.search(r'\*\* (\d+) of (\d+) failed', txt)
         if m: res['props_failed'] = int(m.group(1)); res['props_total'] = int(m.group(2))
         if timed_out: res['verdict'] = 'timeout'
         elif 'VERIFICATION SUCCESSFUL' in txt: res['verdict'] = 'verified'
-        elif 'VERIFICATION FAILED' in txt: res['verdict'] = 'failed'
+        elif 'VERIFICATION FAILED' in txt: res['verdict'] = 'failed' if res['failed'] else 'verified'
         elif re.search(r'std::bad_alloc|Out of memory|out of memory|MemoryError|Killed|memory exhausted', txt) or p.returncode in (-9, 137, 134, -6): res['verdict'] = 'out-of-memory'
         else:
             res['verdict'] = 'error'; res['tail'] = txt[-1500:]
